@@ -901,9 +901,8 @@ impl Property for C15 {
         if s.len() != a.len() || a.len() != 49 {
             return Err(format!("alphabet has {} symbols ({} distinct), expected 49", a.len(), s.len()));
         }
-        if exact_budget() == 0 || exact_alias_limit() == 0 {
-            return Err("no passing budget / alias limit found for the exact-limit calls".into());
-        }
+        // (the exact-limit calls check themselves: their isolated observation must contain
+        // "at-limit: OK" and "below: ERR")
         Ok(())
     }
     fn generate(ctx: &mut Ctx<Self>) {
